@@ -30,24 +30,25 @@ type ReplayFile struct {
 }
 
 type WorkerReport struct {
-	Family     string         `json:"family"`
-	SeedFirst  int64          `json:"seed_first"`
-	SeedLast   int64          `json:"seed_last"`
-	Runs       int            `json:"runs"`
-	WallS      float64        `json:"wall_s"`
-	SimMs      int64          `json:"sim_ms"`
-	Steps      int64          `json:"steps"`
-	Events     int64          `json:"events"`
-	Faults     map[string]int `json:"faults"`
-	Probes     map[string]int `json:"probes"`
-	Shapes     []string       `json:"shapes"`
-	NonTrivial []string       `json:"nontrivial_shapes"`
-	Unfinished int            `json:"unfinished"`
-	UnfinishedSeeds []string  `json:"unfinished_seeds,omitempty"`
-	Leaked     int            `json:"leaked"`
-	Violations []ReplayFile   `json:"violations,omitempty"`
-	Samples    []any          `json:"samples,omitempty"`
-	Engines    map[string]int `json:"engines"`
+	Family           string         `json:"family"`
+	SeedFirst        int64          `json:"seed_first"`
+	SeedLast         int64          `json:"seed_last"`
+	Runs             int            `json:"runs"`
+	WallS            float64        `json:"wall_s"`
+	SimMs            int64          `json:"sim_ms"`
+	Steps            int64          `json:"steps"`
+	Events           int64          `json:"events"`
+	Faults           map[string]int `json:"faults"`
+	Probes           map[string]int `json:"probes"`
+	Shapes           []string       `json:"shapes"`
+	NonTrivial       []string       `json:"nontrivial_shapes"`
+	Unfinished       int            `json:"unfinished"`
+	UnfinishedSeeds  []string       `json:"unfinished_seeds,omitempty"`
+	Leaked           int            `json:"leaked"`
+	Violations       []ReplayFile   `json:"violations,omitempty"`
+	RepeatViolations int            `json:"repeat_violations,omitempty"`
+	Samples          []any          `json:"samples,omitempty"`
+	Engines          map[string]int `json:"engines"`
 }
 
 func writeJSON(path string, v any) {
@@ -148,6 +149,7 @@ func searchMode(t *testing.T) {
 	rep := &WorkerReport{Family: family, Faults: map[string]int{}, Probes: map[string]int{}, Engines: map[string]int{}}
 	shapes := map[string]bool{}
 	nt := map[string]bool{}
+	seenViol := map[string]bool{}
 	startWall := time.Now()
 	var pf *os.File
 	if progress != "" {
@@ -219,6 +221,12 @@ func searchMode(t *testing.T) {
 		if len(res.Violations) > 0 {
 			for _, v := range res.Violations {
 				vv := v
+				key := v.Prop + "|" + v.Class + "|" + cfg.Engine
+				if seenViol[key] {
+					rep.RepeatViolations++
+					continue // one replay file per (property, class, engine) and worker
+				}
+				seenViol[key] = true
 				rep.Violations = append(rep.Violations, ReplayFile{Property: v.Prop, Violation: &vv, Config: cfg, Choices: res.choices, Tail: tail(res.events, 60)})
 			}
 			if len(rep.Violations) >= maxViol {
